@@ -283,6 +283,16 @@ func planC12(g *Gen, tier string) ([]SQLCase, map[string]int, bool) {
 						w.FaultKind = []string{"", "", "deadline", "canceled", "wrapped", "locked", "deadlock", "serialize"}[(k+n+bs+present)%8]
 						cases = append(cases, SQLCase{Kind: "w", Tag: "fault", W: &w})
 						stats["fault"]++
+						// the database's own words for "this already exists" / "no such table": a failure is a failure
+						// whatever its text says
+						e := base
+						e.Fault = k
+						e.FaultKind = []string{"exists", "nosuch"}[(k+present)%2]
+						if k <= 4 {
+							e.FaultKind = "exists"
+						}
+						cases = append(cases, SQLCase{Kind: "w", Tag: "fault-with-a-familiar-text", W: &e})
+						stats["fault-with-a-familiar-text"]++
 						c := base
 						c.Cancel = k
 						// the cancellation arrives while the last statements run: database/sql has already marked the
